@@ -13,7 +13,7 @@ the helper library specs/rspec.py, evaluated once with z3 terms (proof) and, for
 
 usage: ll2smt.py job.json   (job: ll, fn, sig, requires, ensures, timeout_s)  -> JSON on stdout
 """
-import sys, os, json, time, math, fractions, traceback
+import sys, os, json, time, math, fractions, traceback, struct
 HERE = os.path.dirname(os.path.abspath(__file__))
 sys.path.insert(0, HERE)
 sys.path.insert(0, os.path.join(os.path.dirname(HERE), 'specs'))
@@ -263,6 +263,15 @@ class Exec:
                 hi = mem.get(p[1], {}).get(p[2] + 4)
                 if hi is not None and hi[1] == 4:
                     return ('raw64', val, hi[0])
+                if hi is None and not p[1].startswith('@') and not any(p[2] + 4 <= o < p[2] + 8 or (o < p[2] + 4 and o + c_[1] > p[2] + 4)
+                                                                       for o, c_ in mem.get(p[1], {}).items() if o != p[2]):
+                    return ('raw64', val, None)              # upper 4 bytes never written (the unused w lane of an aligned vec3): undef lane
+            if k == 'double' and sz == 8 and csz == 4 and val is not MEMSET_ZERO:
+                # movsd/movlps-style load of two adjacent floats through a double-typed pointer (SIMD shuffles): a bit-pattern carrier,
+                # usable only by moves and by the bitcast back to float lanes (any arithmetic on it is not eligible)
+                hi = mem.get(p[1], {}).get(p[2] + 4)
+                if hi is not None and hi[1] == 4:
+                    return ('raw64', val, hi[0])
             if k == 'double' and sz == 8 and csz == 4 and val is MEMSET_ZERO:
                 hi = mem.get(p[1], {}).get(p[2] + 4)
                 if hi is not None and hi[1] == 4 and hi[0] is MEMSET_ZERO:
@@ -374,13 +383,17 @@ class Exec:
     def merge_raw(self, conds_vals):
         """ite over bit-pattern carriers (raw32/raw64/Mask), lane by lane; the integer constant 0 is the all-zero pattern"""
         kind, n = None, None
+        if any(is_raw(v) and v[0] == 'raw64' for c, v in conds_vals):
+            # a double CONSTANT among 64-bit carriers (clang prints the image of two packed floats as a double literal): use its bits
+            conds_vals = [(c, struct.unpack('<q', struct.pack('<d', v.numerator_as_long() / v.denominator_as_long()))[0]
+                           if (z3.is_expr(v) and z3.is_rational_value(v)) else v) for c, v in conds_vals]
         for c, v in conds_vals:
             if is_raw(v):
                 k, m = v[0], len(v) - 1
             elif isinstance(v, Mask):
                 k, m = 'mask', 1
-            elif v is None or (isinstance(v, int) and not isinstance(v, bool) and v == 0):
-                continue
+            elif v is None or (isinstance(v, int) and not isinstance(v, bool)):
+                continue                                     # integer constant: its 32-bit fields are float bit patterns (below)
             else:
                 raise NotEligible('merge of a bit-pattern value with an arithmetic value')
             if kind not in (None, k):
@@ -390,7 +403,22 @@ class Exec:
         for c, v in conds_vals:
             if v is None:
                 continue
-            per.append((c, [None] * n if isinstance(v, int) else [v] if isinstance(v, Mask) else list(v[1:])))
+            if isinstance(v, int):
+                # constant integer merged with float bit patterns (e.g. the <2 x i64> image of vec3(0, 0, 1)): each 32-bit field is the
+                # float with these bits; 0 stays "all-zero bits" (None here) so that it can also stand for a false comparison mask
+                lanes = []
+                for i in range(n):
+                    u = (v >> (32 * i)) & 0xffffffff
+                    if u == 0:
+                        lanes.append(None)
+                    else:
+                        f = struct.unpack('<f', struct.pack('<I', u))[0]
+                        if math.isnan(f) or math.isinf(f):
+                            raise NotEligible('NaN/Inf bit pattern')
+                        lanes.append(z3.RealVal(fractions.Fraction(f)))
+                per.append((c, lanes))
+                continue
+            per.append((c, [v] if isinstance(v, Mask) else list(v[1:])))
         out = []
         for i in range(n):
             items = [(c, ls[i]) for c, ls in per]
